@@ -676,3 +676,99 @@ impl LuaIndex for LuaModuleIndex {
         self.module_nodes.insert(self.module_root_id, root_node);
     }
 }
+
+#[cfg(emmyluals_emmylua_analyzer_rust_verif)]
+impl LuaModuleIndex {
+    /// Verification hook: entry counts of every container of this index
+    /// (configuration containers are prefixed with `cfg:`).
+    pub fn verif_sizes(&self) -> Vec<(&'static str, usize)> {
+        vec![
+            ("module_nodes", self.module_nodes.len()),
+            (
+                "module_nodes/children",
+                self.module_nodes.values().map(|n| n.children.len()).sum(),
+            ),
+            (
+                "module_nodes/file_ids",
+                self.module_nodes.values().map(|n| n.file_ids.len()).sum(),
+            ),
+            ("file_module_map", self.file_module_map.len()),
+            ("module_name_to_file_ids", self.module_name_to_file_ids.len()),
+            (
+                "module_name_to_file_ids/files",
+                self.module_name_to_file_ids.values().map(|v| v.len()).sum(),
+            ),
+            ("cfg:module_patterns", self.module_patterns.len()),
+            ("cfg:workspaces", self.workspaces.len()),
+            ("cfg:module_replace_vec", self.module_replace_vec.len()),
+        ]
+    }
+
+    /// Verification hook: canonical (sorted) dump of the module tree, the file map,
+    /// the fuzzy-name map and the id counter.
+    pub fn verif_dump(&self) -> serde_json::Value {
+        let mut nodes: Vec<(u32, serde_json::Value)> = self
+            .module_nodes
+            .iter()
+            .map(|(id, node)| {
+                let mut children: Vec<(String, u32)> = node
+                    .children
+                    .iter()
+                    .map(|(k, v)| (k.clone(), v.id))
+                    .collect();
+                children.sort();
+                let files: Vec<u32> = node.file_ids.iter().map(|f| f.id).collect();
+                (
+                    id.id,
+                    serde_json::json!({
+                        "id": id.id,
+                        "parent": node.parent.map(|p| p.id),
+                        "children": children,
+                        "files": files,
+                    }),
+                )
+            })
+            .collect();
+        nodes.sort_by_key(|x| x.0);
+        let mut files: Vec<(u32, serde_json::Value)> = self
+            .file_module_map
+            .iter()
+            .map(|(f, info)| {
+                (
+                    f.id,
+                    serde_json::json!({
+                        "file": f.id,
+                        "info_file": info.file_id.id,
+                        "full": info.full_module_name,
+                        "name": info.name,
+                        "node": info.module_id.id,
+                        "ws": info.workspace_id.id,
+                        "hidden": info.visible.is_hidden(),
+                        "meta": info.is_meta,
+                    }),
+                )
+            })
+            .collect();
+        files.sort_by_key(|x| x.0);
+        let mut fuzzy: Vec<(String, Vec<u32>)> = self
+            .module_name_to_file_ids
+            .iter()
+            .map(|(k, v)| (k.clone(), v.iter().map(|f| f.id).collect()))
+            .collect();
+        fuzzy.sort();
+        serde_json::json!({
+            "root": self.module_root_id.id,
+            "counter": self.id_counter,
+            "fuzzy_on": self.fuzzy_search,
+            "nodes": nodes.into_iter().map(|x| x.1).collect::<Vec<_>>(),
+            "files": files.into_iter().map(|x| x.1).collect::<Vec<_>>(),
+            "fuzzy": fuzzy,
+            "patterns": self.module_patterns.iter().map(|r| r.as_str().to_string()).collect::<Vec<_>>(),
+        })
+    }
+
+    /// Verification hook: the (private) moduleMap rewrite applied to one module path.
+    pub fn verif_replace_module_path(&self, module_path: &str) -> String {
+        self.replace_module_path(module_path)
+    }
+}
